@@ -313,3 +313,38 @@ func (s *System) Live() []*Proc {
 	}
 	return out
 }
+
+// BiasOracle resolves choices at random with per-identifier biases: Bias maps an identifier
+// prefix to the probability of picking option Pick[prefix] (the remaining mass is uniform).
+type BiasOracle struct {
+	R    *rand.Rand
+	Bias map[string]float64
+	Pick map[string]int // option index favoured; -1 = the last option
+}
+
+func (o *BiasOracle) Choose(p *Proc, id string, n uint) uint {
+	for pre, pr := range o.Bias {
+		if strings.HasPrefix(id, pre) {
+			k := o.Pick[pre]
+			if k < 0 {
+				k = int(n) - 1
+			}
+			if k >= int(n) {
+				break
+			}
+			if o.R.Float64() < pr {
+				return uint(k)
+			}
+			if n == 1 {
+				return 0
+			}
+			// uniform over the other options
+			j := o.R.Intn(int(n) - 1)
+			if j >= k {
+				j++
+			}
+			return uint(j)
+		}
+	}
+	return uint(o.R.Intn(int(n)))
+}
